@@ -43,6 +43,52 @@ theorem regexp_spec (count : Nat) (re : Bytes → Bool) (bs : Bytes) :
   · rw [if_pos h]; by_cases hr : re (bs.take c) = true <;> simp [h, hr]
   · rw [if_neg h]; simp [h]
 
+/-- SOCKS5 greeting: version 5, a method count `n`, then `n` method bytes all of which the configuration allows
+(default: no-auth, GSSAPI, user/password).  Exactly then — and with all `2 + n` bytes present — the matcher says yes. -/
+theorem socks5_spec (methods : List Nat) (bs : Bytes) :
+    (socks5 methods).run bs = .yes ↔
+      ∃ n ms rest, bs = 5 :: n :: (ms ++ rest) ∧ ms.length = n.toNat ∧
+        ∀ m ∈ ms, (if methods.isEmpty then [0, 1, 2] else methods).contains m.toNat = true := by
+  simp only [socks5]
+  generalize (if methods.isEmpty then [0, 1, 2] else methods) = allowed
+  cases bs with
+  | nil => simp [Prog.run]
+  | cons v r =>
+    by_cases hv : v = 5
+    · subst hv
+      cases r with
+      | nil => simp [Prog.run]
+      | cons n r2 =>
+        by_cases hlen : n.toNat ≤ r2.length
+        · simp only [Prog.run, List.length_cons, Nat.le_add_left, ↓reduceIte, List.take_succ_cons, List.take_zero,
+            List.drop_succ_cons, List.drop_zero, ne_eq, not_true_eq_false, List.headD_cons, hlen]
+          constructor
+          · intro h
+            split at h
+            · rename_i hall
+              exact ⟨n, r2.take n.toNat, r2.drop n.toNat, by rw [List.take_append_drop], by simp; omega,
+                by simpa [List.all_eq_true] using hall⟩
+            · cases h
+          · rintro ⟨n', ms, rest, heq, hl, hall⟩
+            simp only [List.cons.injEq, true_and] at heq
+            obtain ⟨rfl, rfl⟩ := heq
+            have : (ms ++ rest).take n.toNat = ms := by rw [← hl]; simp
+            rw [this]
+            have : (ms.all fun m => allowed.contains m.toNat) = true := by
+              rw [List.all_eq_true]; exact hall
+            rw [if_pos this]
+        · simp only [Prog.run, List.length_cons, Nat.le_add_left, ↓reduceIte, List.take_succ_cons, List.take_zero,
+            List.drop_succ_cons, List.drop_zero, ne_eq, not_true_eq_false, List.headD_cons, hlen]
+          constructor
+          · intro h; cases h
+          · rintro ⟨n', ms, rest, heq, hl, _⟩
+            simp only [List.cons.injEq, true_and] at heq
+            obtain ⟨rfl, rfl⟩ := heq
+            exfalso; apply hlen; simp; omega
+    · simp only [Prog.run, List.length_cons, Nat.le_add_left, ↓reduceIte, List.take_succ_cons, List.take_zero,
+        List.drop_succ_cons, List.drop_zero]
+      simp [hv, Prog.run]
+
 /-- clock: the zone-local second of the day lies in `[after, before)`, where `before = 0` means midnight and reversed
 bounds are swapped -/
 theorem clock_spec (after before now : Nat) :
